@@ -232,7 +232,7 @@ pub fn build_cases(cfg: &Cfg) -> Vec<Case> {
         }
     }
     // hostile presentations (late collapse, redundant and trivial generators) with multi-generator subgroups
-    for (name, p) in groupcorpus::hostile_presentations(seed, cfg.tier.pick(10000, 30000)) {
+    for (name, p) in groupcorpus::hostile_presentations(seed, cfg.tier.pick(10000, 120000)) {
         let n = p.ngens;
         let fin = groups::order(&p, 3000).is_some();
         if fin {
@@ -265,7 +265,7 @@ pub fn build_cases(cfg: &Cfg) -> Vec<Case> {
         }
     }
     // random presentations: small groups with many coincidences
-    for (k, p) in groupcorpus::random_presentations(seed, cfg.tier.pick(20000, 60000)).into_iter().enumerate() {
+    for (k, p) in groupcorpus::random_presentations(seed, cfg.tier.pick(20000, 250000)).into_iter().enumerate() {
         if groups::order(&p, 2000).is_some() {
             let n = p.ngens;
             cases.push(Case { name: format!("random presentation #{}", k), pres: p.clone(), subgens: vec![], known_order: None });
